@@ -154,3 +154,22 @@ Lemma stream_table_entries_deleted_only_by_closeSession :
   removed_only_in mx "Session.streams" ["multiplex.Session.closeSession"] = true
   /\ never_aliased mx "Session.streams" = true /\ deletes_are_on_fields mx = true.
 Proof. repeat split; vm_compute; reflexivity. Qed.
+
+(* ---- Session.Close: the one-shot transition (closeSession: compare-and-swap on the closed flag) comes
+   BEFORE the closing notice is built and sent, so of several overlapping Close calls only the winner
+   puts a session-closing frame - stream id 0xffffffff, sequence number 0, i.e. one fixed nonce - on the
+   wire (C13: no two messages of an endpoint share a (stream id, sequence number) pair). *)
+Fixpoint index_of (p : ev -> bool) (l : list ev) : option nat :=
+  match l with
+  | [] => None
+  | e :: t => if p e then Some O else match index_of p t with Some n => Some (S n) | None => None end
+  end.
+Definition happens_before (f : string) (a b : ev -> bool) : bool :=
+  match index_of a (events_of f), index_of b (events_of f) with
+  | Some i, Some j => Nat.ltb i j
+  | _, _ => false
+  end.
+Lemma Session_Close_wins_the_flag_before_it_sends :
+  happens_before "multiplex.Session.Close" (is_call "Session.closeSession") (is_call "Session.obfuscate") = true
+  /\ happens_before "multiplex.Session.Close" (is_call "Session.closeSession") (is_call "switchboard.send") = true.
+Proof. split; vm_compute; reflexivity. Qed.
